@@ -26,6 +26,7 @@ ASSUMPTIONS = [
     "relative sources: sigma = relative size x current (signed) values, as the statement says",
     "cor_mat / inverse are only compared when the reference total is positive definite",
     "rebin keeps the number of bins (changing the data size while sources are declared is not defined)",
+    "every array returned by a getter is modified in place by the harness after it was compared (getters hand out copies; a returned array that aliases a cache would show in the next read)",
 ]
 
 HIST_EDGES2 = np.array([0.0, 0.8, 2.2, 3.1, 4.9, 6.0])
@@ -228,7 +229,15 @@ class CWorld(object):
             warnings.simplefilter("ignore")
             try:
                 v = getattr(self.c, name)
-                return None if v is None else np.array(v, dtype=float)
+                out = None if v is None else np.array(v, dtype=float)
+                # the caller owns what a getter returns: scribbling on it must not reach the container's caches
+                if isinstance(v, np.ndarray) and v.flags.writeable and v.size:
+                    try:
+                        v *= 1.5
+                        v += 0.25
+                    except Exception:  # noqa: BLE001
+                        pass
+                return out
             except RecursionError:
                 return ("EXC", "RecursionError")
             except Exception as e:  # noqa: BLE001
